@@ -74,6 +74,20 @@ struct ISvd
     virtual void matrix_V(Snapshot& s, long k) = 0;               // into vecs
 };
 
+// bare Krylov factorization object (Arnoldi / Lanczos) driven directly through its public methods
+struct IKrylov
+{
+    virtual ~IKrylov() {}
+    virtual void init(const VecL& v0) = 0;
+    virtual void extend(long to) = 0;
+    // implicit restart: apply the shifts (mode 0: exact Ritz values (unwanted end), 1: arbitrary reals, 2: conjugate pairs where
+    // the class supports them) until the dimension is k, compress V, then extend to the full dimension again
+    virtual void restart(long k, int mode, uint64_t seed) = 0;
+    virtual long dim() const = 0;
+    virtual long full_dim() const = 0;
+    virtual bool lanczos() const = 0;
+};
+
 struct IWorld
 {
     WorldSpec spec;
@@ -84,11 +98,15 @@ struct IWorld
     virtual ~IWorld() {}
     virtual std::unique_ptr<ISolver> make_solver() = 0;
     virtual std::unique_ptr<ISvd> make_svd() { return nullptr; }
+    virtual std::unique_ptr<IKrylov> make_krylov() { return nullptr; }
     // operator probe: apply every supported method of the REAL wrappers (bypassing the seam) to a
     // fixed vector and append the raw output bytes. Only valid once a solver has been constructed
     // (shift wrappers are factorized by the solver constructor).
     virtual void probe(std::vector<unsigned char>& out) = 0;
     // apply one method of a REAL wrapper, bypassing the seam (harness use only: no event, no fault)
+    // C20: another world object (own seam, own counters) around the SAME read-only product wrapper object;
+    // null if this family's operator is not a shareable product wrapper. The owner must outlive the view.
+    virtual std::unique_ptr<IWorld> share_operator(const WorldSpec& view_spec) { (void) view_spec; return nullptr; }
     virtual void apply_inner(int target, int method, const VecL& x, VecL& y) { (void) target; (void) method; (void) x; (void) y; }
 };
 
